@@ -55,7 +55,7 @@ claimed = {
    tech="deterministic simulation: seeded schedule search over concurrent initialisation sequences, interval-disjointness oracle"),
  "C03": dict(cat="exploration", ref="§3/C03",
    text="One OS process per run executes the real program (cobra root command -> YAML -> Validate -> RunDaemon actor group) in a bubble; 1-3 termination signals are injected with os/signal's delivery semantics at seeded instants across all controller phases (start-up wait, analysis, first-second delay, between ticks, inside a cycle by decision index, same instant, after the Nth restore write) while restore-phase mode/PWM writes fail, are refused or silently ignored; after the process ended the driver files must satisfy (mode==original and original!=1) or PWM==255, the exit must be orderly and timely. Evidence, not proof.",
-   note="Trusted: the signal-delivery model of the hook (non-blocking send per registered channel; panic on a closed registered channel halts the world as the real process death would), the driver model, the parent's reading of final files. Unsatisfiable fault plans (every attempted write of 255 made to fail) are not judged.",
+   note="Trusted: the signal-delivery model of the hook (non-blocking send per registered channel; panic on a closed registered channel halts the world as the real process death would) - cross-validated by family rt.c03, which sends real signals to the real daemon on the real clock (it reproduces the closed-channel crash on the pre-fix tree); the driver model; the parent's reading of final files. Unsatisfiable fault plans (every attempted write of 255 made to fail) are not judged.",
    tech="deterministic simulation of the whole daemon process with signal/fault injection at seeded schedule points; final-state oracle"),
  "C09": dict(cat="fault_enumeration", ref="§3/C09",
    text="A fixed, enumerated single-fault space (3519 faults: 27 backend/curve combinations x component x fault kind x position) is injected one at a time into the real daemon running closed loop in its own process under the simulator; thorough covers the whole list, quick a window of it chosen by VERIF_SEED; pairs of faults are sampled. After each run: no Go panic, no unrequested exit that leaves a fan unrestored, and every fan either still regulated at the end or stopped and restored.",
